@@ -11,15 +11,15 @@ func init() {
 		ID:    "C01",
 		Title: "Federated execution returns what a single server would return",
 		Kernels: []Kernel{
-			{Name: "pipeline", Pkg: ".", Files: []string{"root/fed.go", "root/c01.go"}, Entry: "VerifPipeline", Mode: "seq",
+			{Name: "pipeline", Pkg: ".", Files: []string{"root/fed.go", "root/c01.go"}, Entry: "VerifPipeline", Mode: "seq", Native: true,
 				Quick: map[string]int{"k": 2, "three": 1}, Thorough: map[string]int{"k": 3, "three": 1},
 				Reach: []string{"pipeline completed"}, Functions: pipelineFns,
 				Known: []string{"C01-default-var", "C01-directive-var", "C01-node-without-fragment", "C01-root-typename"}},
-			{Name: "pipeline-abstract", Pkg: ".", Files: []string{"root/fed.go", "root/c01.go"}, Entry: "VerifPipelineAbstract", Mode: "seq",
+			{Name: "pipeline-abstract", Pkg: ".", Files: []string{"root/fed.go", "root/c01.go"}, Entry: "VerifPipelineAbstract", Mode: "seq", Native: true,
 				Quick: map[string]int{"k": 2}, Thorough: map[string]int{"k": 3},
 				Reach: []string{"pipeline completed"}, Functions: pipelineFns,
 				Known: []string{"C01-abs-interface-field-plus-fragment", "C01-abs-id-next-to-fragment", "C01-abs-typename-next-to-union-fragment", "C01-abs-fragment-on-interface"}},
-			{Name: "pipeline-deep", Pkg: ".", Files: []string{"root/fed.go", "root/c01.go"}, Entry: "VerifPipelineDeep", Mode: "seq",
+			{Name: "pipeline-deep", Pkg: ".", Files: []string{"root/fed.go", "root/c01.go"}, Entry: "VerifPipelineDeep", Mode: "seq", Native: true,
 				Reach: []string{"pipeline completed"}, Functions: pipelineFns},
 		},
 		Assume: []string{
